@@ -143,11 +143,11 @@ func TestFindingRenameLinkedName(t *testing.T) {
 	p.link("/a", "/b")
 	err := p.e.Rename(p.root, "a", p.root, "c")
 	p.e.Drain()
-	err2 := p.e.Delete(p.root, "b", true, false, false) // last name of the identity as far as the counter says
+	data, err2 := p.e.UnlinkMount(p.root + "/b") // the mount's rule: isDeleteData = counter <= 1
 	bad, obs := p.referencedAndDeleted()
 	c, _ := p.e.Lookup(p.root + "/c")
 	vlib.Finding(t, "C20-rename-linked-name-unshares-identity", len(bad) > 0,
-		p.detail(fmt.Sprintf("rename /a /c -> %v (hard link id of /c now %q); DeleteEntry(/b,isDeleteData=true) -> %v handed {%s} to deletion; still referenced by /c: %v", err, c.GetHardLinkId(), err2, fdrv.ShortList(obs), bad)))
+		p.detail(fmt.Sprintf("rename /a /c -> %v (hard link id of /c now %q); unlink /b by the mount rule (isDeleteData=%v) -> %v handed {%s} to deletion; still referenced by /c: %v", err, c.GetHardLinkId(), data, err2, fdrv.ShortList(obs), bad)))
 }
 
 func TestFindingRecursiveDeleteLinked(t *testing.T) {
